@@ -117,6 +117,16 @@ def match_known(known, prop, kind, key):
     return None
 
 
+def clear_replays(prop):
+    d = os.path.join(OUT, "replay", prop)
+    if os.path.isdir(d):
+        for f in os.listdir(d):
+            try:
+                os.remove(os.path.join(d, f))
+            except OSError:
+                pass
+
+
 def write_replay(prop, name, content):
     d = os.path.join(OUT, "replay", prop)
     os.makedirs(d, exist_ok=True)
@@ -161,6 +171,7 @@ def main():
     claim = load_manifest_claim(prop) or {}
     claimed_level = (claim.get("level_claimed") or {}).get("category", "other")
     known, fixed = load_known()
+    clear_replays(prop)
     violations = []      # (line, replay path)
     known_lines = []
     notes = []
